@@ -73,7 +73,7 @@ structure St where
   ctx : Val := .unit
   memo : List ((Nat × Nat) × Option Loc) := []
   log : List Loc := []
-  deriving Repr, Inhabited
+  deriving Repr, Inhabited, DecidableEq
 
 /-- `Checkpoint` -/
 structure Chk where
@@ -153,7 +153,7 @@ inductive Out where
   | fail (st : St)
   | panic (why : Nat)
   | oof
-  deriving Repr, Inhabited
+  deriving Repr, Inhabited, DecidableEq
 
 /-- result of `IterParser::next` -/
 inductive ItSt where
@@ -988,13 +988,13 @@ end
 structure ParseResult where
   output : Option Val
   errs : List Err
-  deriving Repr, Inhabited
+  deriving Repr, Inhabited, DecidableEq
 
 inductive TopOut where
   | result (r : ParseResult) (final : St)
   | panic (why : Nat)
   | oof
-  deriving Repr, Inhabited
+  deriving Repr, Inhabited, DecidableEq
 
 def St.init : St := { pos := 0 }
 
